@@ -240,3 +240,58 @@ def gen_cases(wbits, digs, rng, tier):
                 cases.append("bn_div_rem %d %s %s" % (al, hx(a), hx(b)))
     rng.shuffle(cases)
     return cases, stats
+
+
+def gen_histories(wbits, digs, cap, rng, tier, ns=4):
+    """call histories for harness/relic_vm.c (model/Relic): programs of 8..30 calls over ns slots with
+    every alias pattern; a slot whose last operation may have reported an error is re-set before use"""
+    quick = tier == "quick"
+    nats = nat_corners(wbits, digs, rng, nrand=20, full_upto=1)
+    vals = nats + [-v for v in nats if v]
+    lines = []
+
+    def dg(v):
+        return (abs(v).bit_length() + wbits - 1) // wbits
+    for _ in range(150 if quick else 3000):
+        lines.append("reset")
+        cur = {s: 0 for s in range(1, ns + 1)}
+        known = {s: True for s in range(1, ns + 1)}
+        for _ in range(rng.randint(8, 30)):
+            unk = [s for s in cur if not known[s]]
+            r = rng.random()
+            if unk or r < 0.25:
+                s = unk[0] if unk else rng.randint(1, ns)
+                v = rng.choice(vals)
+                lines.append("set %d %s" % (s, hx(v)))
+                cur[s], known[s] = v, True
+                continue
+            if r < 0.32:
+                lines.append("getcode")
+                continue
+            op = rng.choice(["bn_add", "bn_sub", "bn_mul", "bn_div", "bn_sqr", "bn_neg", "bn_abs", "bn_copy", "bn_dbl",
+                             "bn_lsh", "bn_rsh"])
+            o, a, b = rng.randint(1, ns), rng.randint(1, ns), rng.randint(1, ns)
+            k = rng.choice([0, 1, 7, 8, 9, wbits - 1, wbits, wbits + 1, 2 * wbits, wbits * (digs // 2)])
+            x, y = cur[a], cur[b]
+            res = None
+            if op == "bn_add": res = x + y
+            elif op == "bn_sub": res = x - y
+            elif op == "bn_mul": res = x * y
+            elif op == "bn_div": res = None if y == 0 else x // y
+            elif op == "bn_sqr": res = x * x
+            elif op == "bn_neg": res = -x
+            elif op == "bn_abs": res = abs(x)
+            elif op == "bn_copy": res = x
+            elif op == "bn_dbl": res = 2 * x
+            elif op == "bn_lsh": res = x << k
+            elif op == "bn_rsh": res = (abs(x) >> k) * (1 if x >= 0 else -1)
+            lim = 2 * digs if op in ("bn_mul", "bn_sqr") else digs
+            if res is not None and dg(res) > cap + 2:
+                continue                         # far beyond the capacity: keep the histories interesting
+            lines.append("%s %d %d %d %d" % (op, o, a, b, k))
+            if res is None or dg(res) > lim:
+                known[o] = False                 # may have thrown: re-set before the next use
+                cur[o] = 0
+            else:
+                cur[o] = res
+    return lines
